@@ -14,7 +14,7 @@
 (* event that is not ideal: "VIOLATION" or the name of the catalogued open *)
 (* finding whose as-is model reproduces the observation exactly.           *)
 (***************************************************************************)
-EXTENDS XmlSurface, TLC, Json, IOUtils
+EXTENDS XmlSurface, XmlLex, TLC, Json, IOUtils
 
 CONSTANTS Prop,      \* "C01" | "C02" | "C04"
           Open       \* names of the open catalogued findings of Prop
@@ -36,8 +36,11 @@ HasProj(v) == "proj" \in DOMAIN v
 
 \* ---------------------------------------------------------------------------------------------
 \* tool-level consistency of the event itself
+FromText(e) == "src" \in DOMAIN e /\ e.src = "text"
+
 ToolVerdict(e) ==
-  IF ~StyleOK(e.style) THEN "TOOL-BAD-STYLE"
+  IF FromText(e) THEN (IF Lex(e.text) = e.toks THEN "ok" ELSE "TOOL-LEX-MISMATCH")
+  ELSE IF ~StyleOK(e.style) THEN "TOOL-BAD-STYLE"
   ELSE IF \E i \in 1..Len(e.toks) : ~TokenSane(e.toks[i]) THEN "TOOL-INSANE-TOKEN"
   ELSE IF e.toks = <<>> \/ e.toks[Len(e.toks)].k # "end" THEN "TOOL-NO-END"
   ELSE IF Render(e.toks, e.style) # e.text THEN "TOOL-RENDER-MISMATCH"
@@ -114,7 +117,9 @@ C01Verdict(e, rec) ==
 \* ---------------------------------------------------------------------------------------------
 \* C02: ill-formed => Err or non-empty rest, in both entry points.  A name with two colons is an
 \* XML 1.0 Name (only Namespaces in XML forbids it): not demanded.
-NsOnly(viol) == \A i \in 1..Len(viol) : viol[i] \in {"TwoColons"}
+\* Parameter entities are not modelled (XmlLex): no conclusion either.
+NsOnly(viol) == \/ (\E i \in 1..Len(viol) : viol[i] = "ParameterEntity")
+                \/ (\A j \in 1..Len(viol) : viol[j] \in {"TwoColons"})
 
 \* as-is models: the first violated constraint is one the parser is known not to check, and it
 \* is the only kind of violation in the document
@@ -193,9 +198,27 @@ RenderOut(e, i) ==
                                      wf |-> rec.wf, viol |-> rec.viol, inprofile |-> rec.inprofile,
                                      tree |-> rec.tree])>>)
 
+(***************************************************************************)
+(* Text mode (Prop = "TEXT"): the events are arbitrary TEXTS (character-   *)
+(* level edits of well-formed renderings made by the harness).  The        *)
+(* specification reads them with its own scanner (XmlLex) and decides      *)
+(* whether they are well-formed.  Such cases are never in the C01 profile  *)
+(* (the scanner is lenient about content models, so "well-formed" is only  *)
+(* an upper bound there); C02 uses the "ill-formed" verdicts, C04 every    *)
+(* accepted input.                                                         *)
+(***************************************************************************)
+TextStyle == [quote |-> "dq", tagws |-> 0, eqws |-> FALSE, empty |-> "tag", chars |-> <<"lit">>,
+              order |-> "fwd", declws |-> 0]
+TextOut(e, i) ==
+  LET toks == Lex(e.text)
+      rec == Recognize(toks)
+  IN PrintT(<<"REPLAY", ToJson([toks |-> toks, style |-> TextStyle, text |-> e.text, src |-> "text",
+                                wf |-> rec.wf, viol |-> rec.viol, inprofile |-> FALSE, tree |-> rec.tree])>>)
+
 Init == l = 1
 Next == /\ l <= Len(Rec)
         /\ IF Prop = "RENDER" THEN RenderOut(Rec[l], l)
+           ELSE IF Prop = "TEXT" THEN TextOut(Rec[l], l)
            ELSE LET v == Verdict(Rec[l])
                 IN  IF v.verdict = "ok" THEN TRUE ELSE PrintT(<<"VERDICT", ToJson([i |-> l] @@ v)>>)
         /\ l' = l + 1
